@@ -48,6 +48,13 @@ COEF = [1.0, -0.5, 2.0, 0.75, -1.5, 0.4]
 CONSTS = {"const": [2.5, -1.25, 0.75, 1.5, -0.5, 2.0], "const_int": [2, -3, 1, 4, -1, 2]}
 BEAM_DEG_CAP = {"quick": {1: 5, 2: 3, 3: 2}, "thorough": {1: 9, 2: 6, 3: 4}}  # by beam dimension
 SEL_DEG_CAP = {"quick": 2, "thorough": None}  # cap of the function-form degree on selections other than face / face_b / all
+# map "skew": the template with cells of size 12 (every node of every element of order <= 4 then has whole-number coordinates) under an
+# integer-valued affine map that leaves no side / face parallel to a coordinate axis or plane.  The node coordinates are whole numbers,
+# so the SAME mesh can be handed to the library as a float array or as an integer array (a mesh typed by hand without decimal points);
+# the letter below is the dtype of the coordinate array given to GroupElemFactory.Create
+SKEW_CELL = 12
+SKEW_DTYPES = ["int64", "float64"]
+SKEW_SIMS = ["elastic", "thermal"]
 
 
 # ------------------------------------------------------------------------------------------------
@@ -87,8 +94,9 @@ def _mesh_variants(et, d, tier):
     mixed = isinstance(et, (list, tuple))
     tp = Z.topo(et[0] if mixed else et)
     if d == 1:
-        return [("T", 3, True, 0, "", "identity")]
+        return [("T", 3, True, 0, "", "identity"), ("T", 3, False, 0, "", "skew")]
     v = [("T", 2, False, 0, "", "identity"), ("T", 2, False, 0, "", "generic"), ("T", 2, False, 0, "", "reflection")]
+    v.append(("T", 2, False, 0, "", "skew"))              # whole-number coordinates, no side parallel to an axis (see SKEW_DTYPES)
     if d == 2:
         v.append(("T", 2, True, 0, "", "identity"))       # interior vertex displaced: general quadrangles
         v.append(("T", 1, True, 0, "", "identity"))       # one corner displaced: slanted edges
@@ -144,6 +152,8 @@ def cases(tier, seed):
                 for vi, var in enumerate(variants):
                     if var[5] == "lifted" and sim not in ("thermal", "weakforms1"):
                         continue
+                    if var[5] == "skew" and sim not in SKEW_SIMS:
+                        continue
                     for t in ([1.0, 0.7] if d == 2 else ([1.0] if d == 1 else [1.0, 0.7])):
                         if d == 3 and t != 1.0 and sim not in ("elastic", "thermal"):
                             continue  # 3D: the thickness must not enter; two models accept the parameter
@@ -151,7 +161,7 @@ def cases(tier, seed):
                             # complete in (element type x load x selection x form) for the elastic simulation on every mesh
                             # variant; every other simulation on the default template and on the gmsh mesh, thickness 0.7
                             if sim != "elastic":
-                                if not (vi == 0 or var[0] == "G" or var[5] == "lifted") or t != (0.7 if d == 2 else 1.0):
+                                if not (vi == 0 or var[0] == "G" or var[5] in ("lifted", "skew")) or t != (0.7 if d == 2 else 1.0):
                                     continue
                                 if var[0] == "G" and d == 3 and sim not in ("thermal", "phasefield_u"):
                                     continue
@@ -163,6 +173,15 @@ def cases(tier, seed):
                             c = _case(sim, et, var, load, t)
                             c["every_direction"] = tier == "thorough"
                             c["sel_degree_cap"] = SEL_DEG_CAP[tier]
+                            if var[5] == "skew":
+                                # quick: the float-typed twin of the mesh (control) with the first simulation of the dimension only, and
+                                # no second simulation in 3D
+                                first = sim == ("thermal" if d == 1 else "elastic")
+                                if tier == "quick" and d == 3 and not first:
+                                    continue
+                                for cdtype in (SKEW_DTYPES if (first or tier == "thorough") else SKEW_DTYPES[:1]):
+                                    add(dict(c, cdtype=cdtype))
+                                continue
                             add(c)
                             if sim == "elastic" and (vi == 0 or var[5] == "reflection") and not mixed:
                                 # the same loads entered AFTER read-only queries (displaced-configuration coordinates and normals, point
@@ -200,11 +219,14 @@ def describe(tier, seed):
                   "template), other simulations on the default template (+ gmsh mesh) with thickness 0.7; monomials packed one per direction. "
                   if tier == "quick" else
                   "thorough: full product simulation x element type x mesh variant x load x thickness; every monomial in every direction. ")
-                 + f"meshes: 2x2(x2) templates (plain, seeded affine image, distorted, other diagonal), gmsh polygons and extrusions; "
+                 + f"meshes: 2x2(x2) templates (plain, seeded affine image, distorted, other diagonal, 'skew' = whole-number node coordinates "
+                   f"under an integer affine map with no side parallel to an axis, handed to the library as {SKEW_DTYPES} arrays: "
+                   f"{SKEW_SIMS}, in 1D a line mesh lying obliquely in the plane; quick: float64 twin with the first simulation of each "
+                   f"dimension, no second simulation in 3D), gmsh polygons and extrusions; "
                    f"beams: 3 elements, dims 1-3, members along x / y|z / seeded direction, monomials up to min(rule order, {BEAM_DEG_CAP[tier]} by beam dimension)"
                    + ("; on the selections two_faces / sub-part(+strays) the function-form monomials stop at degree 2" if tier == "quick" else ""),
         "alphabet": {"simulations": len(SIMS) + 2, "element_types": 19, "mixed_meshes": 6, "loads": len(LOADS), "selections": 7,
-                     "forms": 5, "thickness": 2},
+                     "forms": 5, "thickness": 2, "coordinate_dtypes": len(SKEW_DTYPES)},
         "assumptions": [
             "order of the load quadrature = order of the MatrixType.mass rule of the loaded element type (MatrixType.beam for Hermitian "
             "line loads), tabulated in LOAD_DEGREE / HERMITE_DEGREE; on straight-sided non-affine QUAD/HEXA cells the budget is reduced "
@@ -238,6 +260,13 @@ def _mono_vals(e, X, coef=1.0):
 def _affine_map(name, d):
     if name == "identity":
         return np.eye(3), np.zeros(3)
+    if name == "skew":
+        # integer entries, positive determinant (2D: 1, 3D: 3); images of the axes (2,1,0), (1,1,0) / (1,0,1), (1,1,0), (0,1,2): no side of
+        # the mapped template is parallel to an axis, no face to a coordinate plane, and no edge has a whole-number length
+        A = np.array([[2.0, 1.0, 0.0], [1.0, 1.0, 0.0], [0.0, 0.0, 1.0]]) if d <= 2 else np.array([[1.0, 1.0, 0.0], [0.0, 1.0, 1.0], [1.0, 0.0, 2.0]])
+        b = np.zeros(3)
+        b[:max(d, 2)] = [1.0, 2.0, 3.0][:max(d, 2)]
+        return A, b
     r = rng("c09map", name, d)
     A = Z.generic_affine(r, d)
     b = np.zeros(3)
@@ -336,22 +365,26 @@ def _build_continuum(case):
     if case["src"] == "T":
         A, b = _affine_map(case["map"], d)
         k, dist = case["k"], case["distort"]
+        cell = float(SKEW_CELL) if case["map"] == "skew" else None  # size of a template cell (default: the template tiles the unit square / cube)
         if d == 1:
-            zm = Z.template_1d(ets, n=k, graded=dist, L=1.3)
+            L = 1.3 if cell is None else cell * k
+            zm = Z.template_1d(ets, n=k, graded=dist, L=L)
             xs = np.linspace(0, 1, k + 1)
-            xs = (xs ** 1.7 if dist else xs) * 1.3
-            regs = G.regions_T1(xs)
+            xs = (xs ** 1.7 if dist else xs) * L
+            regs = G.regions_T1(xs, A, b)
         elif d == 2:
-            zm = Z.template_2d(ets, k=k, distort=dist, diag=case["diag"])
-            P = Z._grid_vertices_2d(k, dist, (1.0, 1.0)) @ A.T + b
+            size = (1.0, 1.0) if cell is None else (cell * k, cell * k)
+            zm = Z.template_2d(ets, k=k, distort=dist, diag=case["diag"], size=size)
+            P = Z._grid_vertices_2d(k, dist, size) @ A.T + b
             regs = G.regions_T2(P)
         else:
-            zm = Z.template_3d(ets, k=k, distort=dist)
-            P = Z._hexa_vertices_3d(k, dist, (1.0, 1.0, 1.0)) @ A.T + b
+            size = (1.0, 1.0, 1.0) if cell is None else (cell * k, cell * k, cell * k)
+            zm = Z.template_3d(ets, k=k, distort=dist, size=size)
+            P = Z._hexa_vertices_3d(k, dist, size) @ A.T + b
             regs = G.regions_T3(P, distort=dist)
         if case["map"] != "identity":
             zm = zm.mapped(A, b)
-        return zm.build(), regs, d
+        return zm.build(coord_dtype=case.get("cdtype")), regs, d
     if d == 2:
         mesh, ex = Z.gmsh_2d(ets, case["poly"], h=0.6)
         segs = [np.asarray(g.connect) for g in mesh.Get_list_groupElem(1)]
@@ -601,6 +634,8 @@ def _run_continuum(case):
         cx.key["prequery"] = True
     if case.get("restretch"):
         cx.key["restretch"] = True
+    if case.get("cdtype"):
+        cx.key["coord"] = case["cdtype"]
     stride_one = bool(case.get("every_direction", False))
     vio = []
     nontrivial = False
